@@ -84,6 +84,7 @@ def register(kind, env):
     """Define and register a new Expr subclass after UFL has been imported (and possibly used)."""
     from ufl.classes import GeometricCellQuantity, Grad, MathFunction, Sin, Sum
 
+    mesh = env.mesh
     if kind == "op":
 
         @ufl_type(num_ops=1, inherit_shape_from_operand=0, inherit_indices_from_operand=0)
@@ -128,7 +129,10 @@ def register(kind, env):
                 Terminal.__init__(self)
 
             def ufl_domains(self):
-                return ()
+                return (mesh,)
+
+            def is_cellwise_constant(self):
+                return False
 
             def __str__(self):
                 return "late_terminal"
@@ -482,7 +486,8 @@ def build_entries():
     fn("str", "table", lambda E, env: str(E))
     fn("repr", "table", lambda E, env: repr(E))
     fn("tree_format", "table", lambda E, env: tree_format(E))
-    fn("sorted_expr", "table", lambda E, env: tuple(sorted_expr([E, env.f * env.g, E * env.g, env.f, E * env.g + env.f])))
+    fn("sorted_expr", "table", lambda E, env: tuple(sorted_expr([E, env.f * env.g, env.again(), E * env.g, env.f, E * env.g + env.f])))
+    fn("sum_of_equal_nodes", "table", lambda E, env: E + env.again() + E * env.again())
     fn("unique_post_traversal", "table", lambda E, env: tuple(unique_post_traversal(E)))
     fn("cutoff_traversal", "table", _cutoff)
     fn(
@@ -659,6 +664,8 @@ def do_step(st, env):
             sym = Sym(env, ent["frame"])
             N = node(st["target"], env, sym)
             E = context(st["ctx"], N, env, sym)
+            # a second, equal but distinct expression (for comparisons between nodes of the same late type)
+            env.again = lambda: context(st["ctx"], node(st["target"], env, sym), env, sym)
         except BaseException as e:
             out = {"status": "exc", "phase": "build", **classify_exception(e)}
             out["trace"] = []
